@@ -191,15 +191,7 @@ class _Flags:
         raise StubGap(f'flags.{name} is not modelled')
 
 
-class _NdMeta(type):
-    def __instancecheck__(cls, inst):
-        # iterating a structured row yields an ndarray (a view) for a sub-array field, a numpy scalar for a scalar field
-        if type.__instancecheck__(cls, inst):
-            return True
-        return cls.__name__ == 'ndarray' and type(inst).__name__ == 'Elem' and inst.width is not None
-
-
-class ndarray(metaclass=_NdMeta):
+class ndarray:
     flags = _Flags()
     """Plain (non-structured) array: one source column."""
 
@@ -484,7 +476,7 @@ class Row:
                 yield Elem(f.owner, f.column, row, SDtype(t.name, NATIVE), None, False, f.zero)
             else:
                 # a view of the sub-array with the *field's* dtype (byte order kept)
-                yield Elem(f.owner, f.column, row, t, w, True, f.zero)
+                yield ArrElem(f.owner, f.column, row, t, w, True, f.zero)
 
 
 class Elem:
@@ -518,6 +510,12 @@ class Elem:
         k = w * self.dtype.itemsize
         col = '<zeros>' if self.zero else self.column
         return Rope([('src', f'{col}|{self.dtype.name}|{self.dtype.byteorder}', self.row * k, (self.row + 1) * k)])
+
+
+class ArrElem(Elem, ndarray):
+    """The element a structured row yields for a SUB-ARRAY field: an ndarray (a view) for isinstance() - a real subclass,
+    because CrossHair's isinstance does not consult a metaclass __instancecheck__ (found with seed C03r6: the obligation
+    was Confirmed although the concrete run showed the mutation).  Elem's methods come first; anything else is a StubGap."""
 
 
 def asarray(x, *a, **k):
